@@ -44,6 +44,18 @@ def model_canonical(res, extra_used):
     return out
 
 
+def _same_but_imports(a, b):
+    """equal except that the real client imports MORE operations constants (a constant that a parameter shadowed
+    is unused for autoflake; once the parameter is renamed it is used again)"""
+    try:
+        ca, cb = dict(a["client"]), dict(b["client"])
+        ia, ib = set(map(tuple, ca.pop("imports"))), set(map(tuple, cb.pop("imports")))
+        return ({k: v for k, v in a.items() if k != "client"} == {k: v for k, v in b.items() if k != "client"}
+                and ca == cb and ia <= ib and all(n.endswith("_GQL") for _s, n in ib - ia))
+    except Exception:  # noqa
+        return False
+
+
 def first_difference(a, b, path="$"):
     if type(a) != type(b):
         return f"{path}: {str(a)[:160]} != {str(b)[:160]}"
@@ -97,6 +109,24 @@ def run(ctx, cases):
         if isinstance(mc, dict) and mc.get("operations") and v["real"].get("operations"):
             mc["operations"].pop("modules", None)
         v["variants"][variant] = None if mc == v["real"] else first_difference(mc, v["real"])
+        if v["variants"][variant] is not None and "E" in cfg and isinstance(mc, dict) and mc.get("operations"):
+            # ExtractOperations' process_name hook (fixes/C15-extract-constant-shadowed.diff) renames an argument
+            # that is named like a constant; this renaming is modelled here, in the canonical form
+            constants = {k for k, _ in mc["operations"]["consts"]}
+            methods = []
+            for m in mc["client"]["methods"]:
+                names = {p[0] for p in m[2]}
+                for p in [p[0] for p in m[2] if p[0] in constants]:
+                    new = p
+                    while new in constants or (new != p and new in names):
+                        new += "_"
+                    m = canon.rename_param_in_method(m, p, new)
+                methods.append(m)
+            mc2 = dict(mc, client=dict(mc["client"], methods=methods))
+            # the import of a constant that was only shadowed before is used again
+            if mc2 == v["real"] or _same_but_imports(mc2, v["real"]):
+                v["variants"][variant] = None
+                run.dist("k1_extract_reserved_names", "renamed")
     for v in verdict.values():
         case, cfg = v["case"], v["cfg"]
         run.count()
